@@ -11,6 +11,7 @@ import (
 	"strings"
 	"time"
 
+	"servitor/object"
 	"servitor/pub"
 	"servitor/splicer"
 	"verif/lib/dummy"
@@ -351,14 +352,125 @@ func sizesPart(r *ev.Report) {
 	r.Extra["long_source_sessions"] = n
 }
 
+// realItemsPart: the synthetic items above carry their time directly; here the items are
+// real posts built from JSON, so that the way a published time is read (fractions of a
+// second, offsets, missing values) is part of what is merged. Every pair of sources with up
+// to two items each over six timestamp spellings.
+func realItemsPart(r *ev.Report) {
+	stamps := []string{"", "2020-01-01T10:00:00Z", "2020-01-01T10:00:00.100Z", "2020-01-01T10:00:00.900Z", "2020-01-01T10:00:01Z", "2020-01-01T11:00:00.5+01:00"}
+	parse := func(s string) time.Time {
+		if s == "" {
+			return time.Time{}
+		}
+		t, err := time.Parse(time.RFC3339Nano, s)
+		if err != nil {
+			panic(err)
+		}
+		return t
+	}
+	var lists [][]int
+	lists = append(lists, nil)
+	for a := range stamps {
+		lists = append(lists, []int{a})
+		for b := range stamps {
+			lists = append(lists, []int{a, b})
+		}
+	}
+	var n int64
+	for _, la := range lists {
+		for _, lb := range lists {
+			type head struct {
+				name string
+				ts   time.Time
+			}
+			var srcs []pub.Container
+			var heads [][]head
+			for si, l := range [][]int{la, lb} {
+				var items []any
+				var hs []head
+				for k, code := range l {
+					name := fmt.Sprintf("s%d-i%d", si, k)
+					it := map[string]any{"type": "Note", "name": name, "content": "x"}
+					if stamps[code] != "" {
+						it["published"] = stamps[code]
+					}
+					items = append(items, it)
+					hs = append(hs, head{name, parse(stamps[code])})
+				}
+				c, err := pub.NewCollectionFromObject(object.Object{"type": "Collection", "items": items}, nil, pub.NewTangible)
+				if err != nil {
+					ev.Fatal("real items part: %v", err)
+				}
+				srcs = append(srcs, c)
+				heads = append(heads, hs)
+			}
+			var want []string
+			for {
+				best := -1
+				for i, h := range heads {
+					if len(h) == 0 {
+						continue
+					}
+					if best < 0 || h[0].ts.After(heads[best][0].ts) {
+						best = i
+					}
+				}
+				if best < 0 {
+					break
+				}
+				want = append(want, heads[best][0].name)
+				heads[best] = heads[best][1:]
+			}
+			sp := splicer.VerifNewSplicer(srcs)
+			got := func() (names []string) {
+				defer func() {
+					if x := recover(); x != nil {
+						names = []string{"panic: " + fmt.Sprint(x)}
+					}
+				}()
+				items, _, _ := sp.Harvest(10, 0)
+				for _, it := range items {
+					names = append(names, it.Name())
+				}
+				return names
+			}()
+			n++
+			if fmt.Sprint(got) != fmt.Sprint(want) {
+				r.Violation("real-items:order", map[string]any{"source_a": stampsOf(stamps, la), "source_b": stampsOf(stamps, lb), "got": got, "want": want,
+					"msg": "posts built from JSON are not merged newest first by their published times"})
+			}
+		}
+	}
+	r.Eval(n)
+	r.Extra["real_item_feeds"] = n
+}
+
+func stampsOf(stamps []string, l []int) []string {
+	out := make([]string, len(l))
+	for i, c := range l {
+		out[i] = stamps[c]
+		if out[i] == "" {
+			out[i] = "(none)"
+		}
+	}
+	return out
+}
+
 func main() {
 	r := ev.New("C11", "model_checking",
 		"source tuples: k in 0..3 sources, each a list of 0..3 items with timestamps from {missing, t1<t2<t3} in every order (ties, unsorted); quick: all tuples of <=2 sources with <=3 items and 3 sources with <=2 items, "+
 			"thorough: all tuples of <=3 sources with <=3 items; per tuple an explicit-state search over request sequences (sizes {0,1,2,3,5}, state = items delivered), every transition replayed on a fresh real Splicer "+
-			"over synthetic Container sources, every continuation asked twice, plus every unmerged request pair (optionally followed by an empty request) and then a large request; long sources (1,19..22,39..41,64,100 items; one source, long+short, two interleaved) under single requests of 19..128 items and a few two-request sequences; distinct_nontrivial = tuples with >=2 non-empty sources")
+			"over synthetic Container sources, every continuation asked twice, plus every unmerged request pair (optionally followed by an empty request) and then a large request; long sources (1,19..22,39..41,64,100 items; one source, long+short, two interleaved) under single requests of 19..128 items and a few two-request sequences; real posts built from JSON (six spellings of the published time incl. fractions of a second and an offset) in every pair of sources with <=2 items; distinct_nontrivial = tuples with >=2 non-empty sources")
 	if *ev.FlagReplay != "" {
 		var s session
-		ev.LoadReplay(*ev.FlagReplay, &s)
+		if key := ev.LoadReplay(*ev.FlagReplay, &s); strings.HasPrefix(key, "real-items") {
+			realItemsPart(r) // small: run it whole
+			r.Eval(1)
+			r.Distinct("a")
+			r.Distinct("b")
+			r.States, r.Transitions = 1, 1
+			r.Finish()
+		}
 		if len(s.Requests) == 2 && s.Requests[0] < 0 {
 			if key := runOffset(s.Sources, s.Requests[1], -s.Requests[0]); key != "" {
 				fmt.Println("replay offset:", key)
@@ -422,6 +534,7 @@ func main() {
 	})
 	_ = shards
 	sizesPart(r)
+	realItemsPart(r)
 	r.Sample(session{tuple{{3, 1}, {2, 2, 0}}, []int{2, 0, 5}})
 	r.Sample(session{tuple{{}, {1, 3}, {3}}, []int{1, 1, 1, 1}})
 	r.Extra["tuples"] = len(tuples)
